@@ -480,12 +480,12 @@ def r09f(ctx):
         c2 = [c_ for c_ in cmps if c_ in b2][0]
         ve2 = a.variant_edges(c2, 'core::cmp::Ordering')
         exits = [(p, q) for p in b2 for q in a.cfg.succ[p] if q not in b2]
-        errb = {bb for (bb, si, k, _) in a.ret_sites() if k == 'err'}
-        # exits other than the loop condition's own exit and error exits must pass the Less edge
-        cond_exits = [(p, q) for (p, q) in exits if p == h2 or a.cfg.must_pass(p, via_blocks=[h2]) and c2 not in a.cfg.reach([h2], cut_blocks=[p]) and False]
-        early = [(p, q) for (p, q) in exits if p in a.cfg.reach([c2]) and p != h2 and q not in errb and not (a.cfg.reach([q]) <= (errb | a.cfg.reach(list(errb)))) ]
-        ok = all(p not in a.cfg.reach([b_ for (_, b_) in ve2.get('0', []) + ve2.get('1', [])], cut_edges=[(x_, h2) for x_ in b2 if h2 in a.cfg.succ[x_]]) for (p, q) in early)
-        ctx.check(ok, 'R09f', fn, 'scan exits', a.loc(c2), 'the sequential scan stops early only after seeing a key greater than the target', 'the sequential scan can stop early although equal keys may follow')
-        rec = [w for w in a.calls() if w in b2 and a.term(w).get('fn', '').endswith('FnMut::call_mut')]
-        ok2 = bool(rec) and all(w not in a.cfg.reach([h2], cut_edges=set(ve2.get('0', [])) | {(x_, h2) for x_ in b2 if h2 in a.cfg.succ[x_]}) for w in rec)
+        erronly = a.error_blocks()
+        lat2 = [(x_, h2) for x_ in b2 if h2 in a.cfg.succ[x_]]
+        after_cmp = a.cfg.reach([c2], cut_edges=set(ve2.get('255', [])) | set(lat2))
+        early = [(p, q) for (p, q) in exits if p in after_cmp and p != c2 and q not in erronly and (p, q) not in ve2.get('255', [])]
+        ctx.check(not early, 'R09f', fn, 'scan exits', a.loc(c2), 'after comparing an entry the sequential scan leaves the loop early only through the "target < key" edge',
+                  'the sequential scan can stop early although equal keys may follow (exit at line %s not behind the "target < key" edge)' % [a.line(p) for (p, q) in early])
+        rec = [w for w in a.calls() if w in b2 and sg(a.term(w).get('fn', '')).endswith('FnMut::call_mut')]
+        ok2 = bool(rec) and all(w not in a.cfg.reach([h2], cut_edges=set(ve2.get('0', [])) | set(lat2)) for w in rec)
         ctx.check(ok2, 'R09f', fn, 'scan records', a.loc(c2), 'the scan records a value exactly on the equal edge')
